@@ -54,13 +54,16 @@ def triple(F, seed, m, t, alt, t_dec, ctor, other_seed, other_m, flipper=None):
     X = E.public_key(seed)
     if E.sc(t) % E.L == 0:
         # T = identity: the constructor must refuse it, and the check must not take a plain signature for an adapter
-        ident = b'\x01' + bytes(31)
-        made = run(F, push(seed) + push(m) + push(ident) + op('MAKE_ADAPTER_SIG_PUBLIC'))
         sig = E.sign(seed, m)
-        chk = run(F, push(sig[32:]) + push(sig[:32]) + push(m) + push(ident) + push(X) + op('CHECK_ADAPTER_SIG'))
-        if made is None and chk != [b'\xff']:
+        bad = ''
+        for ident in (b'\x01' + bytes(31), b'\x01' + bytes(30) + b'\x80'):       # the identity, with and without the sign bit
+            made = run(F, push(seed) + push(m) + push(ident) + op('MAKE_ADAPTER_SIG_PUBLIC'))
+            chk = run(F, push(sig[32:]) + push(sig[:32]) + push(m) + push(ident) + push(X) + op('CHECK_ADAPTER_SIG'))
+            if made is not None or chk == [b'\xff']:
+                bad += ('make ' if made is not None else '') + ('check ' if chk == [b'\xff'] else '')
+        if not bad:
             return ('refused', 'nosig', 'extract')
-        return ('identity-tweak-accepted:' + ('make ' if made is not None else '') + ('check' if chk == [b'\xff'] else ''), 'nosig', 'extract')
+        return ('identity-tweak-accepted:' + bad, 'nosig', 'extract')
     T = E.base_mult_noclamp(t)
     if ctor == 'pub':
         st = run(F, push(seed) + push(m) + push(T) + op('MAKE_ADAPTER_SIG_PUBLIC'))
@@ -95,6 +98,14 @@ def triple(F, seed, m, t, alt, t_dec, ctor, other_seed, other_m, flipper=None):
     if st is None or len(st) != 2:
         return (check, 'nosig', 'extract')
     RT, s = st
+    # the decrypted signature is also published in the cache (keys RT and s, tape flags 7 / 9 default on): the same values
+    try:
+        _, _, cch = F.run_script(push(sa) + push(R) + push(t_dec) + op('DECRYPT_ADAPTER_SIG'), {})
+        if cch.get(b'RT') not in (RT, [RT]) or cch.get(b's') not in (s, [s]):
+            return (check, 'cache-export-differs-from-stack', 'extract')
+    except BaseException as e:
+        if isinstance(e, (KeyboardInterrupt, SystemExit)):
+            raise
     ok_ref = E.verify(X, m, RT + s)
     ok_nacl = nacl_verify(X, m, RT + s)
     if ok_ref != ok_nacl:
